@@ -66,6 +66,60 @@ func VC10Req(kind, im, n int) {
 	vAssert("mem", bus1.Peek(probe) == bus2.Peek(probe))
 }
 
+// requests built through the public constructors (the objects a user hands to
+// the CPU): form 0 NMIInterrupt, 1 IM1Interrupt, 2 IM2Interrupt(v), 3
+// IM0Interrupt(RST 38h), 4 IM0Interrupt(CALL nn).  A mode-2 request met in mode
+// 0 would execute its (arbitrary) vector byte as an opcode: left to C12.
+func vCtorReq(form int, name string) *Interrupt {
+	switch form {
+	case 0:
+		return NMIInterrupt()
+	case 1:
+		return IM1Interrupt()
+	case 2:
+		return IM2Interrupt(vU8(name + ".v"))
+	case 3:
+		return IM0Interrupt(0xff)
+	}
+	return IM0Interrupt(0xcd, vU8(name+".lo"), vU8(name+".hi"))
+}
+
+// Isolation sandwich: CPU 1 takes a Step with a constructor-built request; an
+// unrelated CPU 0 (own state, own memory, own request, any mode) takes a Step;
+// CPU 2 - equal to CPU 1 before its Step, request built again with the same
+// arguments - takes a Step.  CPU 2 must end like CPU 1: CPU 0 cannot have
+// influenced it through anything the constructors or Step share.
+func VC10Sandwich(form0, form int) {
+	var s, s0 States
+	vHavoc(&s, "s")
+	vHavoc(&s0, "s0")
+	bus1 := vNewBus("bus")
+	bus1.Poke(s.PC, 0)
+	bus2 := bus1.Fork("bus2")
+	bus0 := vNewBus("bus0")
+	bus0.Poke(s0.PC, 0)
+	if form == 2 {
+		vAssume(s.IM != 0)
+	}
+	if form0 == 2 {
+		vAssume(s0.IM != 0)
+	}
+	c1 := &CPU{States: s, Memory: bus1, IO: bus1}
+	c2 := &CPU{States: s, Memory: bus2, IO: bus2}
+	c0 := &CPU{States: s0, Memory: bus0, IO: bus0}
+	c1.Interrupt = vCtorReq(form, "r")
+	c1.Step()
+	c0.Interrupt = vCtorReq(form0, "r0")
+	c0.Step()
+	c2.Interrupt = vCtorReq(form, "r")
+	c2.Step()
+	vAssert("state", c1.States == c2.States)
+	vAssert("pending", (c1.Interrupt == nil) == (c2.Interrupt == nil))
+	vAssert("trace", vTraceSeqEq(bus1, bus2))
+	probe := vU16("probe")
+	vAssert("mem", bus1.Peek(probe) == bus2.Peek(probe))
+}
+
 // a CPU rebuilt from a copy of States and memory at the boundary after any
 // instruction continues exactly like the original.
 // mode: 0 = the next instruction is a NOP; 1 = a maskable request (mode 1) is
